@@ -19,18 +19,31 @@ class DrvError(Exception):
 class Drv:
     """Synchronous client of the Lean model/oracle driver (one JSON line each way)."""
 
+    CALL_TIMEOUT = 60.0
+
     def __init__(self):
-        self.proc = subprocess.Popen([DRV_BIN], stdin=subprocess.PIPE, stdout=subprocess.PIPE,
-                                     text=True, bufsize=1)
         self.calls = 0
+        self._start()
+
+    def _start(self):
+        self.proc = subprocess.Popen([DRV_BIN], stdin=subprocess.PIPE, stdout=subprocess.PIPE,
+                                     stderr=subprocess.DEVNULL, text=True, bufsize=1, close_fds=True)
 
     def call(self, op, **kw):
         kw["op"] = op
+        import select
         self.proc.stdin.write(json.dumps(kw) + "\n")
         self.proc.stdin.flush()
+        ready, _, _ = select.select([self.proc.stdout], [], [], self.CALL_TIMEOUT)
+        if not ready:
+            # the model/oracle did not answer in time: restart the driver, report an infrastructure error
+            self.proc.kill()
+            self._start()
+            raise DrvError("driver timeout on %s" % op)
         line = self.proc.stdout.readline()
         self.calls += 1
         if not line:
+            self._start()
             raise DrvError("driver died on %s" % op)
         ans = json.loads(line)
         if "err" in ans:
